@@ -801,3 +801,98 @@ def rule_entry_sib(facts):
     r.explanation = "parse_with_state and check_with_state have identical call/operand provenance (%d calls) and differ only in the mode of `go`" % len(sa)
     r.nontrivial = 1
     return r
+
+
+# ====================================================================== MERGE-ARMS (Rich: a user-supplied error survives a merge)
+
+def rule_merge_arms(facts):
+    """`RichReason::flat_merge(self, other)`: a Custom (user-supplied) reason on either side is what the merge
+    returns (the first one if both are); two ExpectedFound reasons give an ExpectedFound that keeps self's `found`."""
+    r = RuleResult("MERGE-ARMS")
+    bs = facts.find("error::RichReason::flat_merge")
+    if len(bs) != 1:
+        r.errors.append("anchor error::RichReason::flat_merge: %d bodies" % len(bs))
+        return r
+    b = bs[0]
+    adt = facts.adts.get("error::RichReason")
+    names = [v["name"] for v in adt["variants"]]
+    # the tuple (self, other) and the discriminant reads of its two components
+    disc = {}
+    for _, bl, s in assigns(b):
+        if s["rv"]["k"] == "discr":
+            fl = mirq.place_fields(s["rv"]["place"])
+            base = pvroots = None
+            comp = [x for x in fl if x in ("0", "1")]
+            if comp and not s["place"]["p"]:
+                disc[s["place"]["l"]] = int(comp[0])
+    seen = {}
+    try:
+        ps = mirq.paths(b, limit=60000)
+    except RuntimeError as e:
+        r.errors.append(str(e))
+        return r
+    for path in ps:
+        if path and path[-1][1] == "loop":
+            continue        # went once round a loop without reaching the return: no returned value on this prefix
+        d = {0: None, 1: None}
+        for bb, idx in path:
+            t = b["blocks"][bb]["term"]
+            if t["k"] == "switch" and idx not in (None, "loop"):
+                op = mirq.operand_place(t["op"])
+                if op is not None and op["l"] in disc and d[disc[op["l"]]] is None:
+                    ch = mirq.switch_choice(b, bb, idx)
+                    if ch == "otherwise":
+                        listed = [v for v, _ in t["targets"]]
+                        rest = [i for i in range(len(names)) if i not in listed]
+                        ch = rest[0] if len(rest) == 1 else None
+                    d[disc[op["l"]]] = names[ch] if isinstance(ch, int) and ch < len(names) else None
+        pp_ = mirq.PathProv(b, path)
+        ret = pp_.of_local(0)
+        kind = "?"
+        if ret == {("arg", 1)} or ret == {("aggf", "tuple", ())}:
+            kind = "self"
+        if ret == {("arg", 1)}:
+            kind = "self"
+        elif ret == {("arg", 2)}:
+            kind = "other"
+        elif any(x[0] == "aggf" and x[1].endswith("RichReason::ExpectedFound") for x in ret):
+            agg = [x for x in ret if x[0] == "aggf"][0]
+            fd = dict(agg[2]).get("found", frozenset())
+            kind = "merged(found<-self)" if fd and fmt_roots(fd).startswith("arg1.") and "arg2" not in fmt_roots(fd) else "merged(found<-%s)" % fmt_roots(fd)
+        else:
+            kind = fmt_roots(ret)[:80]
+        seen.setdefault((d[0], d[1]), set()).add(kind)
+    want = {}
+    for a in names:
+        for c in names:
+            if a == "Custom":
+                want[(a, c)] = "self"
+            elif c == "Custom":
+                want[(a, c)] = "other"
+            else:
+                want[(a, c)] = "merged(found<-self)"
+    for (a, c), w in sorted(want.items()):
+        got = set()
+        for (x, y), ks in seen.items():
+            if (x in (a, None)) and (y in (c, None)):
+                # a path that did not test a component applies to all its variants
+                if x == a or x is None:
+                    if y == c or y is None:
+                        got |= ks
+        # only paths consistent with (a, c): those that tested both, or tested one and it matches
+        got = set()
+        for (x, y), ks in seen.items():
+            if (x is None or x == a) and (y is None or y == c):
+                got |= ks
+        ok = got == {w}
+        r.ob(ok)
+        if not ok:
+            r.violations.append(V("MERGE-ARMS", b["qname"], "merge of (%s, %s)" % (a, c),
+                                  "flat_merge(self: %s, other: %s) must return %s (a user-supplied error at that position is preserved; "
+                                  "expected-sets are merged keeping the first `found`); the code returns %s" % (a, c, w, sorted(got)), *loc(b)))
+    r.explanation = ("RichReason::flat_merge decided per pair of variants by path-sensitive provenance of the returned value: Custom on either "
+                     "side is returned (first wins), ExpectedFound x ExpectedFound builds ExpectedFound keeping self's `found` (%d variant pairs)"
+                     % len(want))
+    r.nontrivial = len(want)
+    r.samples = [{"%s x %s" % k: sorted(v)} for k, v in sorted(seen.items(), key=str)[:4]]
+    return r
